@@ -17,7 +17,7 @@ import os
 import random
 import time
 
-from harness import common, sysreplay, tlc, trace
+from harness import common, sysdrv, sysreplay, tlc, trace
 
 CLAUSES = {
     "C03": {"P_PinFree", "P_EnsIdle", "P_PathsIdle", "P_LocksExact", "P_Holds", "P_NonZero", "P_ZeroSwapAtomic",
@@ -142,6 +142,41 @@ def _random_job(args):
     return idx, enc, info
 
 
+def _real_pool_job(args):
+    idx, spec = args
+    from harness import realrun
+    root = os.path.join(_CTX["work"], f"rp{os.getpid()}_{idx}")
+    try:
+        kw = {k: spec[k] for k in ("moves", "cap", "sleep", "more", "delete_old", "delete_old_all") if k in spec}
+        res = realrun.real_run(root, spec["n"], spec["workers"], spec["steps"], spec["seed"],
+                               kills=[tuple(k) for k in spec.get("kills", [])], **kw)
+    except Exception as exc:  # noqa: BLE001
+        import traceback
+        res = {"_error": f"{type(exc).__name__}: {exc}\n{traceback.format_exc()[-800:]}"}
+    finally:
+        sysdrv.cleanup(root)
+    return idx, res
+
+
+def real_pool_specs(seed, count, kills=True, n_values=(3, 4), restarts_more=True):
+    rnd = random.Random(seed)
+    specs = []
+    for i in range(count):
+        n = rnd.choice(list(n_values))
+        w = rnd.randrange(2, n) if n > 2 else 1
+        steps = rnd.randrange(8, 20)
+        sp = {"n": n, "workers": w, "steps": steps, "seed": rnd.randrange(1, 10 ** 6), "sleep": rnd.choice([0.0, 0.002, 0.01])}
+        if kills and i % 2 == 1:
+            nk = rnd.choice([1, 1, 2])
+            sp["kills"] = [["ev", rnd.randrange(3, 2 * steps), rnd.choice([0.0, 0.001, 0.003, 0.01])] for _ in range(nk)]
+        if restarts_more and i % 3 == 0:
+            sp["more"] = rnd.randrange(2, 6)
+        if i % 4 == 2:
+            sp["moves"] = ["sh"] + [rnd.choice(["sh", "wf"]) for _ in range(n - 2)] + ["sh"]
+        specs.append(sp)
+    return specs
+
+
 class SystemCheck:
     def __init__(self, pid, tier, level="model_checking"):
         self.pid = pid
@@ -221,6 +256,36 @@ class SystemCheck:
             chk.sample({"kind": "real run recorded and validated", "run": specs[0]}, limit=4)
         self.validate_multi({k: ([e for e, _ in v], [m for _, m in v]) for k, v in by_key.items()})
         print(f"  real runs: {len(specs)} runs, {time.time() - t0:.1f} s", flush=True)
+
+    def real_pool_runs(self, specs, label="real-pool"):
+        """The unmodified scheduler() with a real process pool and real moves, recorded in the main process, optionally
+        SIGKILLed (whole session) after a given number of recorded events and restarted; every history is validated by
+        TraceInfretis.tla.  spec: {n, workers, steps, seed, kills: [("ev", k, delay), ...], more, sleep, moves, cap}."""
+        chk = self.chk
+        t0 = time.time()
+        results = common.pmap(_real_pool_job, list(enumerate(specs)), procs=max(1, min(6, (os.cpu_count() or 4) // 3)))
+        by_key = {}
+        nkilled = 0
+        for idx, res in results:
+            spec = specs[idx]
+            self.stats["random_runs"] += 1
+            if "_error" in res:
+                chk.machinery(f"real-pool driver failed: {res['_error']}")
+                continue
+            nkilled += sum(1 for lt in res["lifetimes"] if lt["killed"])
+            rp = {"binding": "C", "kind": label, "run": spec, "lifetimes": res["lifetimes"]}
+            for sig, what in res["problems"]:
+                rp2 = dict(rp, property=self.pid, clause=sig, observed=what)
+                chk.violation(f"{label}:{sig}", f"real scheduler, real process pool ({spec}): {what}", rp2)
+            if res["events"]:
+                by_key.setdefault((spec["n"], spec["workers"]), []).append((trace.encode_trace(res["events"]), rp))
+            chk.nontrivial(f"{label}:" + json.dumps(spec, sort_keys=True))
+        if specs:
+            chk.sample({"kind": "unmodified scheduler() with a real process pool, recorded and validated", "run": specs[0]}, limit=5)
+        self.validate_multi({k: ([e for e, _ in v], [m for _, m in v]) for k, v in by_key.items()})
+        self.stats["real_pool_runs"] = self.stats.get("real_pool_runs", 0) + len(specs)
+        self.stats["real_pool_kills"] = self.stats.get("real_pool_kills", 0) + nkilled
+        print(f"  real scheduler / real process pool: {len(specs)} histories, {nkilled} SIGKILLs, {time.time() - t0:.1f} s", flush=True)
 
     # -- verdicts --------------------------------------------------------------
     def exception(self, err, replay):
